@@ -113,6 +113,16 @@ SUMMARY = {
  "C17-l": "buffered direct-invoke response of exactly the limit is labelled Oversized (>= instead of == limit + 1)",
  "C18-l": "restore hook deadline only set for a positive timeout: with 0 ms a silent runtime makes the restore wait for ever",
  "C19-l": "exit statuses 129..159 reported as death by signal N-128",
+ "C05-m": "the function timeout is not signalled when the runtime state is 'response sent': a runtime that answers and never polls again leaves the invocation unanswered for ever",
+ "C06-m": "HandleShutdown re-arms the context too (defer reinitialize): after a failed cold start the invocation quietly starts a fresh generation and succeeds, no reset, the init error is never delivered",
+ "C07-m": "InternalAgentsMap.Clear ranges over the id index while deleting from the name index: an internal extension survives every reset as a ghost that later inits wait for",
+ "C09-m": "the shutdown of a failed cold init is skipped for Extension.LaunchError: extensions launched before the failing one are orphaned",
+ "C11-m": "the invoke flow clears its agents latch with Reset instead of Clear: after cancel-then-clear it keeps cancellation, arrivals and count",
+ "C13-m": "ExternalAgentsMap / InternalAgentsMap.Clear delete from the id index by name: identifiers of the previous generation still resolve",
+ "C14-m": "response read into a pooled buffer handed to the reply stream without copying: the front end's pending write of invocation N is overwritten by N+1 (at the size limit)",
+ "C15-m": "an extension that exits with status 0 is no longer recorded as the first fault: init-runtime-done reports Runtime.Unknown",
+ "C16-m": "mapExclude deletes in place and AgentExecEnv filters the stored customer map: computing an extension's environment strips the runtime's",
+ "C20-m": "init/error stores the X-Ray cause header for the tracer checked with json.Valid only: a second, unsanitised entry point",
  "C04-e": "AwaitRuntimeReady of the invoke flow waits on the response gate: the invocation completes before the runtime asked for next",
  "C11-e": "a cancelled gate whose count is met returns success from AwaitGateCondition",
  "C13-e": "event validation of register only looks at the last element: an illegal event before a legal one registers a ghost / wrong error type",
